@@ -287,53 +287,78 @@ def coq_str(s):
     return "(sb [" + ";".join(str(c) for c in b) + "])"
 
 
-def coq_eval_codes(tag, imports, code_fn, cases, shard=300, timeout=1200):
+SLOW_CASES = []     # (tag, case text prefix) of cases whose evaluation inside Coq exceeded its time limit
+
+
+def coq_eval_codes(tag, imports, code_fn, cases, shard=300, timeout=1200, shard_timeout=420):
     """cases: list of argument strings; evaluates `code_fn <args>` : N for each inside Coq and
-    returns (list of ints (None where evaluation failed), error log or None)."""
+    returns (list of ints (None where evaluation failed), error log or None).  A shard that
+    does not finish within shard_timeout is split in halves and retried; a single case that
+    still does not finish is given up (None, recorded in SLOW_CASES) without an error: the
+    model being slow on an input says nothing about the code."""
     d = os.path.join(CACHE, "cases", f"{tag}_c{os.getpid()}")
     shutil.rmtree(d, ignore_errors=True)
     os.makedirs(d)
-    shards = [cases[i:i + shard] for i in range(0, len(cases), shard)]
     res = [None] * len(cases)
     err = None
+    counter = [0]
 
-    def launch(k, sc):
-        f = os.path.join(d, f"codes{k}.v")
+    def launch(lo, hi):
+        counter[0] += 1
+        f = os.path.join(d, f"codes{counter[0]}.v")
         with open(f, "w") as fh:
             fh.write("From Coq Require Import NArith ZArith List String.\nImport ListNotations.\nOpen Scope string_scope.\n")
             fh.write(imports + "\n")
             fh.write("Definition codes : list N := [\n")
-            fh.write(";\n".join(f"({code_fn} {c})" for c in sc))
+            fh.write(";\n".join(f"({code_fn} {c})" for c in cases[lo:hi]))
             fh.write("\n].\n")
             fh.write('Goal True. idtac "@@RESULT". Abort.\nEval vm_compute in codes.\nGoal True. idtac "@@DONE". Abort.\n')
         return subprocess.Popen(["coqc", "-noglob", "-Q", COQ, "Aelys", "-w", "-all", f], cwd=d,
                                 stdout=subprocess.PIPE, stderr=subprocess.STDOUT, text=True)
-    pending = list(enumerate(shards))
+    pending = [(i, min(i + shard, len(cases)), shard_timeout) for i in range(0, len(cases), shard)]
     running = []
     t0 = time.time()
     while pending or running:
         while pending and len(running) < NCPU:
-            k, sc = pending.pop(0)
-            running.append((k, launch(k, sc)))
-        k, p = running.pop(0)
-        try:
-            out, _ = p.communicate(timeout=max(10, timeout - (time.time() - t0)))
-        except subprocess.TimeoutExpired:
-            p.kill()
-            err = (err or "") + f"\nshard {k}: timeout"
-            continue
-        m = re.search(r"@@RESULT\n(.*?)@@DONE", out, flags=re.S)
-        if p.returncode != 0 or not m:
-            err = (err or "") + f"\nshard {k}: coqc failed:\n{out[-3000:]}"
-            continue
-        body = m.group(1)
-        body = body[:body.rfind(":")]
-        nums = [int(x) for x in re.findall(r"\d+", body.replace("%N", ""))]
-        if len(nums) != len(shards[k]):
-            err = (err or "") + f"\nshard {k}: expected {len(shards[k])} codes, got {len(nums)}"
-            continue
-        for i, n in enumerate(nums):
-            res[k * shard + i] = n
+            lo, hi, lim = pending.pop(0)
+            running.append((lo, hi, lim, time.time(), launch(lo, hi)))
+        progressed = False
+        for item in list(running):
+            lo, hi, lim, ts, p = item
+            rc = p.poll()
+            now = time.time()
+            if rc is None and now - ts < lim and now - t0 < timeout:
+                continue
+            running.remove(item)
+            progressed = True
+            if rc is None:
+                p.kill()
+                p.communicate()
+                if now - t0 >= timeout:
+                    err = (err or "") + f"\ncases {lo}..{hi}: overall timeout"
+                elif hi - lo > 1:
+                    mid = (lo + hi) // 2
+                    sub = max(40, lim // 2)
+                    pending.insert(0, (mid, hi, sub))
+                    pending.insert(0, (lo, mid, sub))
+                else:
+                    SLOW_CASES.append((tag, cases[lo][:400]))
+                continue
+            out, _ = p.communicate()
+            m = re.search(r"@@RESULT\n(.*?)@@DONE", out, flags=re.S)
+            if rc != 0 or not m:
+                err = (err or "") + f"\ncases {lo}..{hi}: coqc failed:\n{out[-3000:]}"
+                continue
+            body = m.group(1)
+            body = body[:body.rfind(":")]
+            nums = [int(x) for x in re.findall(r"\d+", body.replace("%N", ""))]
+            if len(nums) != hi - lo:
+                err = (err or "") + f"\ncases {lo}..{hi}: expected {hi - lo} codes, got {len(nums)}"
+                continue
+            for i, n in enumerate(nums):
+                res[lo + i] = n
+        if not progressed:
+            time.sleep(0.2)
     if not os.environ.get("VERIF_KEEP_CASES"):
         shutil.rmtree(d, ignore_errors=True)
     return res, err
